@@ -383,6 +383,78 @@ fn lang_cases() -> Vec<LangCase> {
 
 fn has_func(nodes: &[Node]) -> bool { nodes.iter().any(|n| match n { Node::Func { .. } => true, Node::Block(b) | Node::Loop(b) | Node::If(b) => has_func(b), _ => false }) }
 
+// ---------------------------------------------------------------------------------------------
+// family (c): names declared at file level in the real formats (ANM sprites and scripts, ECL subs, MSG scripts, consts),
+// spelled from a pool that contains every other kind of name that is visible there: a register alias, an instruction
+// alias and an enum const from the user mapfile, builtin consts, a name the format generates itself.  Oracle = the
+// renaming clause: the same file with that one declared name (and all its uses) replaced by a fresh spelling must compile
+// to the same bytes.  A colliding spelling may also be *rejected* with an error (counted, not a violation); what may not
+// happen is that both compile and differ, or that only the fresh spelling fails.
+
+pub struct FileNameCase { pub host: &'static str, pub what: &'static str, pub spelling: &'static str, pub use_site: &'static str, pub src_tpl: String, pub map: String }
+
+fn file_name_cases() -> Vec<FileNameCase> {
+    let mut v = vec![];
+    let anm_map = "!anmmap\n!ins_names\n2000 insal\n2003 takeS\n!ins_signatures\n2000 S\n2001 n\n2002 N\n2003 S\n2004 f\n!gvar_names\n10000 AL\n10004 FAL\n!gvar_types\n10000 $\n10004 %\n!enum(name=\"Foo\")\n7 ec\n";
+    let ecl_map = |game: &str| { let (i, f) = if game == "th06" { (-10001, -10005) } else { (10000, 10004) }; format!("!eclmap\n!ins_names\n2000 insal\n2003 takeS\n!ins_signatures\n2000 S\n2003 S\n2004 f\n!gvar_names\n{i} AL\n{f} FAL\n!gvar_types\n{i} $\n{f} %\n!enum(name=\"Foo\")\n7 ec\n") };
+    let msg_map = "!msgmap\n!ins_names\n100 insal\n103 takeS\n!ins_signatures\n100 S\n103 S\n!enum(name=\"Foo\")\n7 ec\n";
+    let pool: [&'static str; 12] = ["AL", "FAL", "insal", "ec", "INF", "NAN", "PI", "true", "sprite0", "script0", "sub0", "main"];
+    let entry = |sprites: &str| format!("entry {{\n    path: \"subdir/file.png\", has_data: false, img_width: 512, img_height: 512, img_format: 3,\n    sprites: {{ {sprites} }},\n}}\n");
+    for sp in pool {
+        // ANM sprite named @N@ (explicit id 5), used as a typed sprite argument, in a plain int argument, in an expression
+        for (site, stmt) in [("n-arg", "ins_2001(@N@);"), ("S-arg", "takeS(@N@);"), ("expr", "$REG[10001] = @N@ + 1;"), ("const", "const int K = @N@ * 2; takeS(K);"), ("unused", "takeS(3);")] {
+            v.push(FileNameCase { host: "anm12", what: "sprite", spelling: sp, use_site: site, map: anm_map.into(),
+                src_tpl: format!("{}script scr {{ {stmt} }}\n", entry("first: {id: 2, x: 0.0, y: 0.0, w: 1.0, h: 1.0}, @N@: {id: 5, x: 0.0, y: 0.0, w: 2.0, h: 2.0}")) });
+        }
+        // ANM script named @N@ (second script), used as a typed script argument and in a plain int argument
+        for (site, stmt) in [("N-arg", "ins_2002(@N@);"), ("S-arg", "takeS(@N@);"), ("expr", "$REG[10001] = @N@ + 1;"), ("unused", "takeS(3);")] {
+            v.push(FileNameCase { host: "anm12", what: "script", spelling: sp, use_site: site, map: anm_map.into(),
+                src_tpl: format!("{}script first {{ {stmt} }}\nscript @N@ {{ takeS(1); }}\n", entry("s0: {id: 0, x: 0.0, y: 0.0, w: 1.0, h: 1.0}")) });
+        }
+        // file-level const named @N@
+        for (site, stmt) in [("S-arg", "takeS(@N@);"), ("expr", "$REG[10001] = @N@ + 1;"), ("label-time", "+@N@: takeS(1);")] {
+            v.push(FileNameCase { host: "anm12", what: "const", spelling: sp, use_site: site, map: anm_map.into(),
+                src_tpl: format!("const int @N@ = 9;\n{}script first {{ {stmt} }}\n", entry("s0: {id: 0, x: 0.0, y: 0.0, w: 1.0, h: 1.0}")) });
+        }
+        // ECL sub named @N@: called, used as an int (its index), as a timeline argument
+        for game in ["th06", "th07"] {
+            let host: &'static str = if game == "th06" { "ecl06" } else { "ecl07" };
+            let r1 = if game == "th06" { -10002 } else { 10001 };
+            for (site, stmt, tl) in [("call", "@N@();", ""), ("S-arg", "takeS(@N@);", ""), ("expr", "$REG[@R@] = @N@ + 1;", ""), ("timeline-arg", "takeS(1);", "ins_0(@N@, 1.0, 2.0, 3.0, 4, 5, 6);"), ("unused", "takeS(3);", "")] {
+                let tl = if game == "th07" && !tl.is_empty() { "ins_0(@N@, 1.0, 2.0, 3.0, 4, 5, 6);" } else { tl };
+                v.push(FileNameCase { host, what: "sub", spelling: sp, use_site: site, map: ecl_map(game),
+                    src_tpl: format!("void first() {{ {} }}\nvoid @N@() {{ takeS(1); }}\nscript timeline0 {{ {tl} }}\n", stmt.replace("@R@", &r1.to_string())) });
+            }
+        }
+        // MSG script named @N@ (referenced from the table)
+        v.push(FileNameCase { host: "msg06", what: "msg-script", spelling: sp, use_site: "table", map: msg_map.into(),
+            src_tpl: "meta { table: { 0: {script: \"first\"}, 1: {script: \"@N@\"} } }\nscript first { takeS(1); }\nscript @N@ { takeS(2); }\n".into() });
+    }
+    v
+}
+
+fn check_file_name_case(c: &FileNameCase) -> (String, Option<Failure>) {
+    use crate::drive::{self, CompileOpts, Kind, Tool};
+    let tool = match c.host { "anm12" => Tool::new(Kind::Anm, "th12".parse().unwrap()), "ecl06" => Tool::new(Kind::Ecl, "th06".parse().unwrap()), "ecl07" => Tool::new(Kind::Ecl, "th07".parse().unwrap()), _ => Tool::new(Kind::Msg, "th06".parse().unwrap()) };
+    let src_a = c.src_tpl.replace("@N@", c.spelling);
+    let src_b = c.src_tpl.replace("@N@", "zzfresh");
+    let a = drive::compile(tool, src_a.as_bytes(), &CompileOpts { mapfiles: vec![&c.map], ..Default::default() });
+    let b = drive::compile(tool, src_b.as_bytes(), &CompileOpts { mapfiles: vec![&c.map], ..Default::default() });
+    let detail = |extra: serde_json::Value| json!({"family": "file-names", "host": c.host, "what": c.what, "spelling": c.spelling, "use_site": c.use_site, "source": src_a, "source_renamed": src_b, "mapfile": c.map, "info": extra});
+    let key = format!("{}:{}:{}", c.host, c.what, c.use_site);
+    if let Some(p) = a.panic.as_ref().or(b.panic.as_ref()) { return ("file-names:panic".into(), Some(Failure { signature: format!("C10:{}", p.signature()), detail: detail(json!({"panic": p.text})) })); }
+    match (&a.bytes, &b.bytes) {
+        (Some(x), Some(y)) if x == y => ("file-names:same".into(), None),
+        (Some(_), Some(_)) => ("file-names:DIFFERS".into(), Some(Failure { signature: format!("C10:file-names:renaming-changes-output:{key}:{}", c.spelling), detail: detail(json!({"diag": a.diag, "diag_renamed": b.diag})) })),
+        (None, Some(_)) => {
+            if drive::has_error(&a.diag) { ("file-names:collision-rejected".into(), None) }
+            else { ("file-names:rejected-without-error".into(), Some(Failure { signature: format!("C10:file-names:rejected-without-error:{key}"), detail: detail(json!({"diag": a.diag})) })) }
+        },
+        (Some(_), None) => ("file-names:FRESH-REJECTED".into(), Some(Failure { signature: format!("C10:file-names:fresh-spelling-rejected:{key}"), detail: detail(json!({"diag_renamed": b.diag})) })),
+        (None, None) => ("file-names:template-rejected".into(), None),
+    }
+}
+
 pub fn run(tier: &str) -> Report {
     let mut rep = Report::new("C10", tier, "model_checking");
     let thorough = tier == "thorough";
@@ -426,9 +498,23 @@ pub fn run(tier: &str) -> Report {
         if i % 401 == 0 { let (m, s) = lang_case_text(&lcases[i]); rep.sample(json!({"family": "lang", "game": lcases[i].game, "mapfile": m, "source": s, "class": class})); }
         if let Some(f) = f { rep.failures.push(f); }
     }
+    // family (c): file-level declared names in the real formats
+    let fcases = file_name_cases();
+    let fres = par_map(&fcases, Some(deadline), |_, c| check_file_name_case(c));
+    let mut template_rejected = vec![];
+    for (i, r) in fres.into_iter().enumerate() {
+        let Some((class, f)) = r else { rep.cap_hit = Some("wall cap in (c)".into()); continue; };
+        rep.evaluations += 2; rep.states += 1; rep.transitions += 1; rep.traces_validated += 1; rep.nontrivial += 1;
+        if class == "file-names:template-rejected" { template_rejected.push(format!("{}:{}:{}:{}", fcases[i].host, fcases[i].what, fcases[i].use_site, fcases[i].spelling)); }
+        rep.outcome(&class);
+        if i % 97 == 0 { rep.sample(json!({"family": "file-names", "host": fcases[i].host, "what": fcases[i].what, "spelling": fcases[i].spelling, "use_site": fcases[i].use_site, "class": class})); }
+        if let Some(f) = f { rep.failures.push(f); }
+    }
+    rep.extra.insert("file_names_cases".into(), json!(fcases.len()));
+    rep.extra.insert("file_names_template_rejected".into(), json!(template_rejected));
     let n_lang = lcases.len();
     rep.exhaustive = true;
-    rep.bound_completed = format!("(b) aliases per language: full product of {n_lang} cases (3 games x per-spelling definition sets {{none, ECL, timeline, both}}^2 x mapfile section order x spelling used in sub x spelling used in timeline x register alias site); (a) deviations<={bound}, <= {budget} nodes, nesting<={depth}; node kinds: use, local (with/without initialiser naming any pool name), const (literal or naming any pool name), block, if, loop, function (with/without parameter); name pool {:?} ('A' is also a register alias)", NAMES);
+    rep.bound_completed = format!("(c) file-level names: sprites / scripts / consts (ANM th12), subs (ECL th06, th07), MSG scripts x 12 spellings (register alias, instruction alias, enum const, builtin consts, generated names) x 1-5 use sites, each against its fresh renaming; (b) aliases per language: full product of {n_lang} cases (3 games x per-spelling definition sets {{none, ECL, timeline, both}}^2 x mapfile section order x spelling used in sub x spelling used in timeline x register alias site); (a) deviations<={bound}, <= {budget} nodes, nesting<={depth}; node kinds: use, local (with/without initialiser naming any pool name), const (literal or naming any pool name), block, if, loop, function (with/without parameter); name pool {:?} ('A' is also a register alias)", NAMES);
     rep.rule = "E-DFS over scope trees; distinct = distinct rendered text; non-trivial = some declaration shadows an outer declaration or the register alias".into();
     rep.assumptions = vec!["M5 scope model (harness), written from the documented scoping rules and resolve/tests.rs expectations".into(), "same-block local/const name clashes, parameters redeclared in the function's top block, circular consts and consts naming a register are generated but only required not to crash".into()];
     rep.explanation = "Ok/Err of resolve_names vs M5; for accepted programs the def-equivalence classes of all identifier occurrences (via passes::debug::make_idents_unique) vs M5's bindings; for function-free resolvable programs, compiled instructions of P and of the injectively renamed program must be identical".into();
@@ -438,6 +524,13 @@ pub fn run(tier: &str) -> Report {
 pub fn replay(detail: &serde_json::Value) -> i32 {
     let table = Table::new(&TableCfg::FULL);
     let mapfile = table.mapfile_text(REGS);
+    if detail["family"].as_str() == Some("file-names") {
+        let Some(c) = file_name_cases().into_iter().find(|c| c.host == detail["host"].as_str().unwrap_or("") && c.what == detail["what"].as_str().unwrap_or("") && c.spelling == detail["spelling"].as_str().unwrap_or("") && c.use_site == detail["use_site"].as_str().unwrap_or("")) else { println!("unknown case"); return 2; };
+        let (class, f) = check_file_name_case(&c);
+        println!("class: {class}");
+        if let Some(f) = &f { println!("FAIL {}\n{}", f.signature, serde_json::to_string_pretty(&f.detail).unwrap()); }
+        return if f.is_some() { 1 } else { 0 };
+    }
     if detail["family"].as_str() == Some("lang") {
         let want = detail["case"].as_str().unwrap_or("");
         for c in lang_cases() { if format!("{:?}", c) == want {
